@@ -74,11 +74,6 @@ def run(chk, repo, tier):
 
     # ---------------------------------------------------------------- C11-c
     nm = 'normalize'
-    groups = {}
-    for p in rets:
-        k = cond_key(p, drop=(nm,))
-        pol = [pl for c, pl, _ in p.conds if fmt(c) == nm]
-        groups.setdefault(k, {})[pol[0] if pol else None] = p
     idx = None
     for p in rets:
         for e in p.calls('zernike.zernike_index'):
@@ -86,28 +81,88 @@ def run(chk, repo, tier):
     if idx is None:
         raise AnalysisError('zernike does not call zernike_index')
     m_, n_ = nf.index(idx.result, C(0)), nf.index(idx.result, C(1))
-    given = [p for p in rets if any(pol is False and fmt(c) == 'is(rho, (None))' for c, pol, _ in p.conds)]
+
+    def literal_truth(c, sign_m, n_is_zero):
+        """Truth of a path condition over (sign of m, n == 0); None when it is about something else."""
+        a = c.single_atom() if isinstance(c, Poly) else None
+        if a is None or not is_app(a):
+            return None
+        if a[1] in ('and', 'or') and all(isinstance(x, Poly) for x in a[2]):
+            vals = [literal_truth(x, sign_m, n_is_zero) for x in a[2]]
+            if any(v is None for v in vals):
+                return None
+            return all(vals) if a[1] == 'and' else any(vals)
+        if a[1] == 'not' and isinstance(a[2][0], Poly):
+            v = literal_truth(a[2][0], sign_m, n_is_zero)
+            return None if v is None else not v
+        if a[1] in ('eq', 'ne', 'lt', 'le') and len(a[2]) == 2:
+            x, y = a[2]
+            for var, val in ((m_, sign_m), (n_, 0 if n_is_zero else 1)):
+                if x == var and y == C(0):
+                    lhs, rhs = val, 0
+                elif y == var and x == C(0):
+                    lhs, rhs = 0, val
+                else:
+                    continue
+                return {'eq': lhs == rhs, 'ne': lhs != rhs, 'lt': lhs < rhs, 'le': lhs <= rhs}[a[1]]
+        return None
+
+    def cases(p):
+        """The (sign of m, n == 0) cases path p is feasible for."""
+        out = []
+        for sm in (-1, 0, 1):
+            for nz in (True, False):
+                if sm != 0 and nz:
+                    continue          # |m| <= n
+                good = True
+                for c, pol, _ in p.conds:
+                    t = literal_truth(c, sm, nz)
+                    if t is not None and t != pol:
+                        good = False
+                if good:
+                    out.append((sm, nz))
+        return out
+
+    def other_key(p):
+        return frozenset((nf.vkey(c), pol) for c, pol, _ in p.conds
+                         if fmt(c) != nm and literal_truth(c, 1, False) is None)
+
+    groups = {}
+    for p in rets:
+        pol = [pl for c, pl, _ in p.conds if fmt(c) == nm]
+        for case in cases(p):
+            groups.setdefault((case, other_key(p)), {}).setdefault(pol[0] if pol else None, []).append(p)
+    from ..rules import none_state
+    given = [p for p in rets if none_state(p, 'rho') is False and cases(p)]
     if not given:
         raise AnalysisError('zernike: paths with caller-supplied coordinates not identified')
     n_pairs = 0
-    for k, g in groups.items():
-        if True in g and False in g:
-            n_pairs += 1
-            a, b = g[True].ret, g[False].ret
-            ratio = a / b if isinstance(b, Poly) and len(b.terms) == 1 else None
-            m_zero = any(pol and fmt(c) == fmt(nf.app('eq', m_, C(0))) for c, pol, _ in g[True].conds)
-            want = (n_ + 1).pow(Fraction(1, 2)) * (1 if m_zero else Poly.const(2).pow(Fraction(1, 2)))
-            chk.ob('C11-c', 'N-sibling', f.key, f'normalisation factor [{"m = 0" if m_zero else "m != 0"}, {conds_str(g[True])[-70:]}]',
-                   ratio == want, f'normalised/un-normalised = {fmt(ratio)}; Noll: {fmt(want)}', f.loc(g[True].node))
+    for (case, _), g in sorted(groups.items(), key=lambda kv: str(kv[0][0])):
+        norm = g.get(True, []) + g.get(None, [])
+        plain = g.get(False, []) + g.get(None, [])
+        if case == (0, True) or not norm or not plain:
+            continue          # piston is the mask itself on either path
+        for pa in norm[:1]:
+            for pb in plain[:1]:
+                if pa is pb:
+                    continue
+                n_pairs += 1
+                a, b = pa.ret, pb.ret
+                ratio = a / b if isinstance(b, Poly) and isinstance(a, Poly) and len(b.terms) == 1 else None
+                m_zero = case[0] == 0
+                want = (n_ + 1).pow(Fraction(1, 2)) * (1 if m_zero else Poly.const(2).pow(Fraction(1, 2)))
+                chk.ob('C11-c', 'N-sibling', f.key,
+                       f'normalisation factor [{"m = 0" if m_zero else ("m > 0" if case[0] > 0 else "m < 0")}, '
+                       f'{"rho given" if none_state(pa, "rho") is False else "default coordinates"}]',
+                       ratio == want, f'normalised/un-normalised = {fmt(ratio)}; Noll: {fmt(want)}', f.loc(pa.node))
     if n_pairs < 1:
         raise AnalysisError('zernike: no normalised/un-normalised path pair found')
     for p in given:
-        pos = [pol for c, pol, _ in p.conds if fmt(c) == fmt(nf.app('lt', C(0), m_))]
-        m0 = [pol for c, pol, _ in p.conds if fmt(c) == fmt(nf.app('eq', m_, C(0)))]
-        if not m0 or m0[0]:
+        cs = cases(p)
+        if len(cs) != 1 or cs[0][0] == 0:
             continue
-        trig = [a for a in p.ret.atoms(deep=False) if is_app(a, ('cos', 'sin'))]
-        want = 'cos' if pos and pos[0] else 'sin'
+        trig = [a for a in p.ret.atoms(deep=False) if is_app(a, ('cos', 'sin'))] if isinstance(p.ret, Poly) else []
+        want = 'cos' if cs[0][0] > 0 else 'sin'
         ok = len(trig) == 1 and trig[0][1] == want and trig[0][2][0] == m_ * S('theta')
         chk.ob('C11-c', 'N-sibling', f.key, f'azimuthal factor {want}(m*theta) [{"m > 0" if want == "cos" else "m < 0"}, '
                f'{"normalised" if any(pol and fmt(c) == nm for c, pol, _ in p.conds) else "un-normalised"}]', ok,
@@ -237,8 +292,11 @@ def noll_rules(chk, repo, clause):
     # odd j <-> negative m: the two parity branches of every case differ exactly by the sign
     for rest, d in by_rest.items():
         if True in d and False in d:
-            if d[True] != -d[False] or d[True].terms[0][1] > 0:
+            if d[True] != -d[False] or (len(d[True].terms) == 1 and d[True].terms[0][1] > 0):
                 ok_sign, det_s = False, f'm(odd j) = {fmt(d[True])[:80]}, m(even j) = {fmt(d[False])[:80]}'
+            elif len(d[True].terms) != 1 and ok_sign is True:
+                # m(odd) = -m(even) holds, but which of the two is the negative one is not visible in a sum
+                ok_sign, det_s = None, 'undecided: m(odd j) = -m(even j), sign of the closed form not determined'
         else:
             ok_sign, det_s = False, 'only one parity branch found'
     chk.ob(clause, 'N-formula', f.key, 'radial order n from the triangular numbers', ok_n, det_n, f.loc())
